@@ -29,7 +29,15 @@ Definition nontrivial_case (inp : list Z) : bool :=
                              (combine ops os)) in
   existsb (fun o => o_status o =? 0) att && existsb (fun o => o_status o =? 1) att.
 
+Fixpoint eq_listZ (a b : list Z) : bool :=
+  match a, b with
+  | [], [] => true
+  | x :: a', y :: b' => (x =? y) && eq_listZ a' b'
+  | _, _ => false
+  end.
+
 (* known-finding shapes: 1 = everything holds except clause 3 (non-preemptible pod admitted
-   against a dimension missing from min) *)
+   against a dimension missing from min) AND the implementation's whole observable for the case is
+   exactly what the faithful model produces (so nothing else can hide behind the recorded shape) *)
 Definition finding_sig (inp obs : list Z) : Z :=
-  if prop_case inp obs =? 3 then 1 else 0.
+  if (prop_case inp obs =? 3) && eq_listZ (run_case inp) obs then 1 else 0.
